@@ -133,6 +133,9 @@ def run(ctx, rep, tier):
     n = 0
     quick_names = {n_ for n_, _, _ in list(families("quick", ("digits", "octal", "words"))) + list(families("quick", ("any",)))}
     not_decided = []
+    # backslash + 8 or more octal digits (three escapes whose values each fork the escaping of the emitted text): 8 digits cost 19 min,
+    # 9 did not finish in 50 min in the two-profile comparison (measured); C03 covers them for panics in both profiles
+    fams = [f for f in fams if not (f[0].startswith("-printf \\") and int(f[0][9:-1]) > 7)]
     # the families of the quick tier first, then the thorough-only ones: the CPU budget then truncates the extras, never the core
     fams = [f for f in fams if f[0] in quick_names] + [f for f in fams if f[0] not in quick_names]
     for name, spec, assume in fams:
